@@ -477,6 +477,12 @@ def dyn_repr_axioms(ex, t):
 
 def eq(ex, a, b):
     """Python == ; returns python bool or Sym Bool."""
+    for x_, y_ in ((a, b), (b, a)):
+        if isinstance(x_, Ref) and isinstance(ex.run.cell(x_), HSet) and ex.run.cell(x_).sym is not None:
+            if isinstance(y_, Sym) and isinstance(y_.kind, K.SetOf):
+                return Sym(K.Bool, ex.run.cell(x_).sym.t == y_.t)
+            if isinstance(y_, Ref) and isinstance(ex.run.cell(y_), HSet) and ex.run.cell(y_).sym is not None:
+                return Sym(K.Bool, ex.run.cell(x_).sym.t == ex.run.cell(y_).sym.t)
     if isinstance(a, Sym) and not isinstance(b, Sym):
         return _eq_sym_const(ex, a, b)
     if isinstance(b, Sym) and not isinstance(a, Sym):
@@ -757,6 +763,8 @@ def contains(ex, container, item):
             return Sym(K.Bool, z3.Contains(container.t, z3.Unit(lift(ex, item, k.elem))))
         if isinstance(k, K.Map):
             return Sym(K.Bool, z3.Not(k.optv.is_none(z3.Select(k.arr(container.t), lift(ex, item, k.key)))))
+        if isinstance(k, K.SetOf):
+            return Sym(K.Bool, z3.Select(container.t, lift(ex, item, k.elem)))
         if isinstance(k, K.Opt):
             if run.decide(k.is_none(container.t)):
                 raise RaiseEx(ExcVal('TypeError', origin='in None'))
